@@ -221,6 +221,7 @@ func init() {
 		l.p("def fiterValidIsFltAndRange : Bool := %s", leanBool(okConj))
 		l.p("/-- the range check, normalised (conversions and hoisted locals removed, timestamp on the left, lower bound first) -/")
 		l.p("def fiterRangeCheck : String := %s", leanStr(rangeCheckDesc(ff, rangeFd, getFd)))
+		c05CallerFacts(l)
 		l.write()
 	}
 }
